@@ -42,7 +42,10 @@ LebDigitSets == << <<0>>, <<1>>, <<126>>, <<127>>, <<0, 1>>, <<1, 1>>, <<126, 12
 Lebs == [j \in 1..Len(LebDigitSets) |-> [fam |-> "C13", kind |-> "leb", valid |-> TRUE, digits |-> LebDigitSets[j], bytes |-> LebBytes(LebDigitSets[j]), class |-> "leb128"]]
 Hdrs == LET vs == SelectSeq([v \in 1..65536 |-> v - 1], LAMBDA v : v % HdrStride = 0 \/ v \in {0, 1, 255, 256, 1023, 1024, 32767, 32768, 65535}) IN
   [j \in 1..Len(vs) |-> [fam |-> "C13", kind |-> "obuhdr", valid |-> TRUE, v |-> vs[j], class |-> "obu_header"]]
-Raw == S1 \o S2 \o S3 \o Lebs \o Hdrs
+\* S4: element lengths across the 16383/16384 LEB128 boundary with MTUs just above it
+S4 == Flatten([mi \in 1..3 |-> LET m == <<16386, 16387, 16390>>[mi] IN
+        [d \in 1..9 |-> Case(m, <<Obu(3, 0, 16378 + d, TRUE, d), Obu(6, 0, 3, TRUE, d + 1)>>, "two_obus_leb3_boundary")]])
+Raw == S1 \o S2 \o S3 \o S4 \o Lebs \o Hdrs
 CaseSeq == [i \in 1..Len(Raw) |-> Raw[i] @@ [case |-> i]]
 ASSUME WriteCases(CaseSeq) /\ PrintT(<<"CASES", Len(CaseSeq)>>)
 =============================================================================
